@@ -159,7 +159,11 @@ def replay(data):
     c = unq(data["cex"]) or {}
     job = data["job"]
     if c.get("kind") == "exc":
-        return True, c["exc"]
+        try:
+            ok, msg = replay(dict(data, cex=dict(kind=job["kind"])))
+            return ok, "no exception with the real Orbax; " + msg
+        except Exception as ex:
+            return True, f"real run raised {type(ex).__name__}: {ex}"
     name = job["solver"]
     kind = "forest" if job.get("route", "restore") == "restore" else "tab"
     fin = c.get("final_iteration") or [job["K"], job["K"]]
